@@ -3007,7 +3007,6 @@ def tflite_optimise_graph(nng, arch, force_symmetric_int_weights, output_basenam
     optimisation_list = [
         optimise_quantize,
         convert_shape_op_to_constant_tensor,
-        fixup_or_check_asymmetric_weights(force_symmetric_int_weights),
         fixup_pool_strides,
     ]
 
@@ -3022,7 +3021,15 @@ def tflite_optimise_graph(nng, arch, force_symmetric_int_weights, output_basenam
         )
 
     # Pre-processing step
-    pre_process_list = [supported_operator_check, set_ifm_ofm_op_shapes, fixup_reshape, convert_conv_groups]
+    # The asymmetric weights fixup/check runs immediately after the supported operator check so that it never modifies an
+    # operator that is then placed on the CPU
+    pre_process_list = [
+        supported_operator_check,
+        fixup_or_check_asymmetric_weights(force_symmetric_int_weights),
+        set_ifm_ofm_op_shapes,
+        fixup_reshape,
+        convert_conv_groups,
+    ]
 
     for idx, sg in enumerate(nng.subgraphs):
         nng.subgraphs[idx] = rewrite_graph.rewrite_graph_pre_order(
